@@ -10,9 +10,11 @@ pub use std::thread::{
   Scope, ScopedJoinHandle, Thread, ThreadId,
 };
 
+type Slot<T> = Arc<std::sync::Mutex<Option<std::thread::Result<T>>>>;
+
 enum Inner<T> {
   Std(std::thread::JoinHandle<T>),
-  Ctl { exec: Arc<Exec>, tid: usize, h: std::thread::JoinHandle<std::thread::Result<T>> },
+  Ctl { exec: Arc<Exec>, tid: usize, slot: Slot<T>, th: Thread },
 }
 
 pub struct JoinHandle<T>(Inner<T>);
@@ -21,14 +23,17 @@ impl<T> JoinHandle<T> {
   pub fn join(self) -> Result<T> {
     match self.0 {
       Inner::Std(h) => h.join(),
-      Inner::Ctl { exec, tid, h } => {
+      Inner::Ctl { exec, tid, slot, .. } => {
+        let _ = exec;
         if let Some(c) = ctx() {
           c.exec.sched_point(c.tid, Pending::Join(tid));
         }
-        let _ = exec;
-        match h.join() {
-          Ok(r) => r,
-          Err(p) => Err(p),
+        // outside a controlled execution (e.g. after it ended): wait for real
+        loop {
+          if let Some(r) = slot.lock().unwrap_or_else(|e| e.into_inner()).take() {
+            return r;
+          }
+          std::thread::sleep(Duration::from_micros(50));
         }
       }
     }
@@ -36,13 +41,13 @@ impl<T> JoinHandle<T> {
   pub fn is_finished(&self) -> bool {
     match &self.0 {
       Inner::Std(h) => h.is_finished(),
-      Inner::Ctl { h, .. } => h.is_finished(),
+      Inner::Ctl { slot, .. } => slot.lock().unwrap_or_else(|e| e.into_inner()).is_some(),
     }
   }
   pub fn thread(&self) -> &Thread {
     match &self.0 {
       Inner::Std(h) => h.thread(),
-      Inner::Ctl { h, .. } => h.thread(),
+      Inner::Ctl { th, .. } => th,
     }
   }
 }
@@ -53,27 +58,23 @@ impl<T> std::fmt::Debug for JoinHandle<T> {
   }
 }
 
-fn spawn_controlled<F, T>(c: Ctx, b: std::thread::Builder, f: F) -> io::Result<JoinHandle<T>>
+fn spawn_controlled<F, T>(c: Ctx, f: F) -> io::Result<JoinHandle<T>>
 where
   F: FnOnce() -> T + Send + 'static,
   T: Send + 'static,
 {
   let tid = c.exec.register_thread(c.tid);
   let exec = c.exec.clone();
-  let h = b.spawn(move || exec.thread_main(tid, f));
-  match h {
-    Ok(h) => {
-      // scheduling point after the spawn: the child may run first
-      c.exec.sched_point(c.tid, Pending::Point(3));
-      Ok(JoinHandle(Inner::Ctl { exec: c.exec, tid, h }))
-    }
-    Err(e) => {
-      std::panic::panic_any(crate::exec::MachineryError(format!(
-        "OS refused to spawn a controlled thread: {}",
-        e
-      )));
-    }
-  }
+  let slot: Slot<T> = Arc::new(std::sync::Mutex::new(None));
+  let slot2 = slot.clone();
+  let th = crate::exec::pool_run(Box::new(move || {
+    exec.thread_main(tid, f, move |r| {
+      *slot2.lock().unwrap_or_else(|e| e.into_inner()) = Some(r);
+    })
+  }));
+  // scheduling point after the spawn: the child may run first
+  c.exec.sched_point(c.tid, Pending::Point(3));
+  Ok(JoinHandle(Inner::Ctl { exec: c.exec, tid, slot, th }))
 }
 
 pub fn spawn<F, T>(f: F) -> JoinHandle<T>
@@ -82,7 +83,7 @@ where
   T: Send + 'static,
 {
   if let Some(c) = ctx() {
-    spawn_controlled(c, std::thread::Builder::new().stack_size(512 * 1024), f).unwrap()
+    spawn_controlled(c, f).unwrap()
   } else {
     JoinHandle(Inner::Std(std::thread::spawn(f)))
   }
@@ -121,7 +122,7 @@ impl Builder {
     T: Send + 'static,
   {
     if let Some(c) = ctx() {
-      spawn_controlled(c, self.std(), f)
+      spawn_controlled(c, f)
     } else {
       self.std().spawn(f).map(|h| JoinHandle(Inner::Std(h)))
     }
